@@ -20,7 +20,11 @@ def main():
     man = json.load(open(os.path.join(core.VERIF, "MANIFEST.json")))
     if os.path.exists("/root/.vp/MANIFEST.schema.json"):
         jsonschema.validate(man, json.load(open("/root/.vp/MANIFEST.schema.json")))
-    print("selftest ok: partitura from", core.REPO)
+    import importlib
+
+    for c in man["checks"]:
+        importlib.import_module("checks." + c["property_id"].lower())
+    print("selftest ok: partitura from", core.REPO, "checks:", len(man["checks"]))
 
 
 if __name__ == "__main__":
